@@ -191,9 +191,15 @@ func newWorldYAML(y string, opts WorldOpts, checks ...string) (*World, string) {
 	if !opts.NoPredicates {
 		plugins.RegisterSchedulerPlugin(w.Pred)
 	}
-	lineRes = w.Checks["C19"] && Excluded("pending-tiebreak-not-weak-order")
-	if lineRes {
+	lineRes = false
+	if w.Checks["C19"] && Excluded("pending-tiebreak-not-weak-order") {
+		lineRes = true
 		w.Excl("pending-tiebreak-not-weak-order")
+	}
+	if (w.Checks["C07"] || w.Checks["C08"]) && Excluded("preemption-shortfall-check") {
+		// listed known finding: with ask sizes that are all multiples of {memory:1 vcore:1} any two totals are comparable
+		lineRes = true
+		w.Excl("preemption-shortfall-check")
 	}
 	w.savedTimings = objects.VerifGetTimings()
 	t := w.savedTimings
